@@ -170,7 +170,7 @@ class ExcSpec(object):
 # request classes
 
 OK_METHODS = ['prims', 'echo', 'inners', 'multi', 'noargs', 'nothing', 'sub',
-              'strict', 'pa', 'poly', 'item1', 'item2']
+              'strict', 'pa', 'poly', 'item1', 'item2', 'total']
 
 
 def build_request(uni, in_prot, rclass, rng):
